@@ -64,6 +64,25 @@ func opConsts(c *Ctx) map[string]int64 { return enumConsts(c, "pb", "Mutation_Op
 
 func C17(c *Ctx) {
 	c.Note("the values themselves; histories with equal timestamps; flush/compaction invariance (C01 recency sites)")
+	const r0 = "K5.empty-value-is-a-value"
+	c.Rule(r0, "Reader.GetValue decides that a committed put has no value by the delete bit only, never by `Value == nil` (the copy of an empty value read back from an SST is a nil slice): Get and Scan agree on a committed empty value")
+	if fn := c.Fn("percolator", "Reader.GetValue"); fn != nil {
+		bad := false
+		var visit func(v ssa.Value) bool
+		visit = func(v ssa.Value) bool {
+			bo, ok := v.(*ssa.BinOp)
+			if !ok {
+				return false
+			}
+			return bo.Op == token.EQL && IsNilConst(bo.Y) && isFieldLoad(bo.X, "kv.Entry", "Value")
+		}
+		for _, b := range fn.Blocks {
+			if ifi := ifOf(b); ifi != nil && visit(ifi.Cond) && returnsSentinelAnywhere(fn, b.Succs[0], "ErrKeyNotFound", 3) {
+				bad = true
+			}
+		}
+		c.Decide(!bad, r0, key(fn, "found-ness#not-by-nil-value"), fn.Pos(), 1, "a nil value slice is not treated as a missing value", "Reader.GetValue reports ErrKeyNotFound when the data entry's value is nil: a committed put of the empty value is invisible to Get although Scan returns it")
+	}
 	const r1 = "K1.lock-check-before-read"
 	c.Rule(r1, "raftstore/kv handleGet and handleScan consult Reader.GetLock and compare readTs >= lock.Ts (blocking edge returns/records a Locked error) before reading the value (Reader.GetValue / collectVisibleValue); a GetLock error is propagated")
 	if fn := c.Fn("raftstore/kv", "handleGet"); fn != nil {
@@ -701,6 +720,74 @@ func C19(c *Ctx) {
 			}
 		}
 		c.Decide(found, r2, key(fn, "MinCommitTs>commitVersion→error"), fn.Pos(), 1, "a commit below the lock's minimum commit ts is refused", "commitKey does not refuse commitVersion < lock.MinCommitTs")
+	}
+	const r2c = "K2.rollback-removes-own-lock-only"
+	c.Rule(r2c, "rollbackKey removes the lock column entry only on the true edge of `lock.Ts == startTs` (the lock read with Reader.GetLock belongs to the transaction being rolled back); isLockExpired refuses to add Ts and TTL when the sum overflows uint64 (such a lock never expires)")
+	if fn := c.Fn("percolator", "rollbackKey"); fn != nil {
+		var startTs ssa.Value
+		if n := len(fn.Params); n > 0 {
+			startTs = fn.Params[n-1]
+		}
+		for i, d := range effectSites(c, fn, isLockDeleteOf(cfLock), 2) {
+			guarded := false
+			for _, b := range fn.Blocks {
+				ifi := ifOf(b)
+				if ifi == nil {
+					continue
+				}
+				var edges [][2]*ssa.BasicBlock
+				var visit func(v ssa.Value, target *ssa.BasicBlock)
+				_ = visit
+				if bo, ok := ifi.Cond.(*ssa.BinOp); ok && (bo.Op == token.EQL || bo.Op == token.NEQ) {
+					l, r := bo.X, bo.Y
+					isLockTs := func(v ssa.Value) bool { return isFieldLoad(v, "percolator.Lock", "Ts") }
+					if (isLockTs(l) && r == startTs) || (isLockTs(r) && l == startTs) {
+						if bo.Op == token.EQL {
+							edges = append(edges, [2]*ssa.BasicBlock{b, b.Succs[0]})
+						} else {
+							edges = append(edges, [2]*ssa.BasicBlock{b, b.Succs[1]})
+						}
+					}
+				}
+				for _, e := range edges {
+					if EdgeDominates(e[0], e[1], d.Block()) {
+						guarded = true
+					}
+				}
+			}
+			c.Decide(guarded, r2c, key(fn, fmt.Sprintf("lock-delete[%d]<-lock.Ts==startTs", i+1)), d.Pos(), 2, "only the rolled-back transaction's own lock is removed", "rollbackKey deletes the key's lock without checking that it belongs to the transaction being rolled back: rolling back a refused prewrite removes the lock of the transaction that holds the key, whose commit then fails with `lock not found`")
+		}
+	}
+	if fn := c.Fn("percolator", "isLockExpired"); fn != nil {
+		// the addition Ts+TTL is dominated by an overflow test (TTL > MaxUint64 - Ts, or a wrap test)
+		guardedAdd := true
+		AllInstrs(fn, false, func(in ssa.Instruction) {
+			bo, ok := in.(*ssa.BinOp)
+			if !ok || bo.Op != token.ADD || !(isFieldLoad(bo.X, "percolator.Lock", "Ts") || isFieldLoad(bo.Y, "percolator.Lock", "Ts")) {
+				return
+			}
+			ok2 := false
+			for _, b := range fn.Blocks {
+				ifi := ifOf(b)
+				if ifi == nil || !b.Dominates(bo.Block()) || b == bo.Block() {
+					continue
+				}
+				if cmp, ok := ifi.Cond.(*ssa.BinOp); ok && (cmp.Op == token.GTR || cmp.Op == token.LSS || cmp.Op == token.GEQ || cmp.Op == token.LEQ) {
+					// one side is MaxUint64 - x
+					for _, side := range []ssa.Value{cmp.X, cmp.Y} {
+						if sub, ok := side.(*ssa.BinOp); ok && sub.Op == token.SUB {
+							if k, ok := sub.X.(*ssa.Const); ok && k.Value != nil && k.Value.ExactString() == "18446744073709551615" {
+								ok2 = true
+							}
+						}
+					}
+				}
+			}
+			if !ok2 {
+				guardedAdd = false
+			}
+		})
+		c.Decide(guardedAdd, r2c, key(fn, "Ts+TTL#overflow-guard"), fn.Pos(), 1, "the expiry instant is computed only when it fits into uint64", "isLockExpired adds lock.Ts and lock.TTL without an overflow test: a TTL near the maximum wraps to a small expiry instant and a fresh lock is rolled back as expired")
 	}
 	// every commit/rollback path removes the lock
 	const r3 = "K1.lock-removed-on-outcome"
